@@ -142,6 +142,9 @@ fn main() {
     std::panic::set_hook(Box::new(|info| {
         alloc_arm(false);
         let site = info.location().map(panic_site).unwrap_or_default();
+        if std::env::var_os("EGV_BACKTRACE").is_some() {
+            eprintln!("panic: {}\n{}", info, std::backtrace::Backtrace::force_capture());
+        }
         PANIC_LOC.with(|l| *l.borrow_mut() = site);
     }));
 
